@@ -246,3 +246,17 @@ PROPS["C15"] = dict(
     bounds={"quick": "4 PUs, depth 3 (full (efficiency, infos) product at depth 1, a covering diagonal deeper)", "thorough": "5 PUs, depth 3"},
     assumptions=COMMON_ASSUMPTIONS + ["efficiencies are only compared with forced values when all are known and pairwise distinct; the frequency/core-type heuristics are outside the property"],
 )
+
+
+PROPS["C16"] = dict(
+    level_text="Exhaustive within bounds: for every root and every sequence of <= 2 edits of the edit alphabet (representable and "
+               "non-representable, two sites each) the pair (A, B) goes through build / apply on a copy / re-build / field comparison / "
+               "reverse / diff XML round trip on the real library; every hand-built list of <= 3 entries over 10 entry kinds is applied "
+               "forward and reverse and compared with a sequential reference model (return value -N, rollback, resulting fields).",
+    technique="bounded-exhaustive enumeration of topology pairs and diff lists on the real diff code; canonical-dump and sequential-model oracles",
+    design_ref="DESIGN.md 5 (C16)",
+    stages=[simple("diff", "c16_diff", parts=16, deadline={"quick": 120, "thorough": 1200})],
+    explanation="B is produced by editing A's own XML export (rename, name set/unset, info value / add / remove / duplicate, NUMA local memory) and through the API (Misc insertion, restrict, subtype).",
+    bounds={"quick": "<= 2 edits, <= 3 hand-built entries", "thorough": "same scope"},
+    assumptions=COMMON_ASSUMPTIONS + ["A and B are both loaded from XML so that they went through the same pipeline"],
+)
